@@ -28,6 +28,7 @@ const (
 
 type TypeSpec struct {
 	Kind int `json:"k"`
+	X    int `json:"x,omitempty"` // TOther: index into the pool other.X0..X7
 }
 
 type PredP struct {
